@@ -1,6 +1,7 @@
 package main
 
 import (
+	"os"
 	"time"
 
 	"github.com/influxdata/influxql"
@@ -12,9 +13,15 @@ import (
 type c13Mapper struct {
 	fields map[string]influxql.DataType
 	tags   []string
+	// nilUnknown: a measurement called "nosuch" and regex sources have no schema at all (nil maps),
+	// as a mapper over real shards answers for a name it does not know
+	nilUnknown bool
 }
 
-func (m *c13Mapper) FieldDimensions(*influxql.Measurement) (map[string]influxql.DataType, map[string]struct{}, error) {
+func (m *c13Mapper) FieldDimensions(mm *influxql.Measurement) (map[string]influxql.DataType, map[string]struct{}, error) {
+	if m.nilUnknown && mm != nil && (mm.Name == "nosuch" || mm.Regex != nil) {
+		return nil, nil, nil
+	}
 	f := map[string]influxql.DataType{}
 	for k, v := range m.fields {
 		f[k] = v
@@ -45,6 +52,7 @@ func c13Schemas() []*c13Mapper {
 		{fields: map[string]influxql.DataType{}, tags: nil},
 		{fields: map[string]influxql.DataType{"v": influxql.Float, "w": influxql.Integer, "s": influxql.String, "b": influxql.Boolean, "u": influxql.Unsigned},
 			tags: []string{"h", "r"}},
+		{fields: map[string]influxql.DataType{"v": influxql.Float, "w": influxql.Integer, "s": influxql.String}, tags: []string{"h"}, nilUnknown: true},
 	}
 }
 
@@ -64,7 +72,9 @@ func c13SelectOps() []struct {
 		{"String", func(s *influxql.SelectStatement) { _ = s.String() }},
 		{"Clone", func(s *influxql.SelectStatement) { _ = s.Clone().String() }},
 		{"Walk", func(s *influxql.SelectStatement) { influxql.WalkFunc(s, func(influxql.Node) {}) }},
-		{"Rewrite", func(s *influxql.SelectStatement) { influxql.RewriteFunc(s, func(n influxql.Node) influxql.Node { return n }) }},
+		{"Rewrite", func(s *influxql.SelectStatement) {
+			influxql.RewriteFunc(s, func(n influxql.Node) influxql.Node { return n })
+		}},
 		{"RewriteRegexConditions", func(s *influxql.SelectStatement) { s.RewriteRegexConditions(); _ = s.String() }},
 		{"RewriteDistinct", func(s *influxql.SelectStatement) { s.RewriteDistinct(); _ = s.String() }},
 		{"RewriteTimeFields", func(s *influxql.SelectStatement) { s.RewriteTimeFields(); _ = s.String() }},
@@ -78,6 +88,13 @@ func c13SelectOps() []struct {
 				_ = r.String()
 				_ = r.ColumnNames()
 			}
+		}},
+		{"RewriteFields/nilmaps", func(s *influxql.SelectStatement) {
+			if r, err := s.RewriteFields(schemas[2]); err == nil {
+				_ = r.String()
+			}
+			_, _, _ = influxql.FieldDimensions(s.Sources, schemas[2])
+			_, _, _ = influxql.FieldDimensions(s.Sources, schemas[1])
 		}},
 		{"Reduce/now", func(s *influxql.SelectStatement) { _ = s.Reduce(nowV).String() }},
 		{"Reduce/nil", func(s *influxql.SelectStatement) { _ = s.Reduce(nil).String() }},
@@ -260,6 +277,51 @@ func c13Observe(text string) M {
 			_, _, _ = influxql.ConditionExpr(s.Condition, nil)
 			_, _ = s.Dimensions.Normalize()
 		})
+		// closure: every operation again on the RESULT of every statement-producing operation (a reduced or
+		// rewritten statement holds node kinds the parser never builds, e.g. a TimeLiteral as time() offset)
+		if os.Getenv("VERIF_C13_CLOSURE") != "" {
+			derive := []struct {
+				name string
+				f    func(s *influxql.SelectStatement) *influxql.SelectStatement
+			}{
+				{"Reduce/now", func(s *influxql.SelectStatement) *influxql.SelectStatement {
+					return s.Reduce(&influxql.NowValuer{Now: c13Now})
+				}},
+				{"Reduce/map", func(s *influxql.SelectStatement) *influxql.SelectStatement {
+					return s.Reduce(influxql.MapValuer{"v": float64(1.5), "w": int64(3), "h": "a", "u": uint64(7), "b": true, "s": "x"})
+				}},
+				{"RewriteFields/schema", func(s *influxql.SelectStatement) *influxql.SelectStatement {
+					r, err := s.RewriteFields(c13Schemas()[1])
+					if err != nil {
+						return nil
+					}
+					return r
+				}},
+				{"InPlaceRewrites", func(s *influxql.SelectStatement) *influxql.SelectStatement {
+					s.RewriteDistinct()
+					s.RewriteRegexConditions()
+					s.RewriteTimeFields()
+					return s
+				}},
+				{"SetTimeRange", func(s *influxql.SelectStatement) *influxql.SelectStatement {
+					if err := s.SetTimeRange(c13Now.Add(-time.Hour), c13Now); err != nil {
+						return nil
+					}
+					return s
+				}},
+			}
+			for _, d := range derive {
+				d := d
+				var ok bool
+				if p := guard(func() { ok = d.f(sel(fresh())) != nil }); p != "" || !ok {
+					continue // the derivation itself is judged by the first-level operations
+				}
+				for _, op := range c13SelectOps() {
+					op := op
+					rec("after:"+d.name+">"+op.name, func() { op.run(d.f(sel(fresh()))) })
+				}
+			}
+		}
 	}
 	o["ops"] = ops
 	return o
